@@ -107,15 +107,22 @@ Definition opt_wire (o : option sig) : bexp :=
   match o with Some s => BVar s | None => BAbsent end.
 
 (* flop_next(twire(D), opt_twire(E), opt_twire(S), opt_twire(R), flop) *)
+Definition pin_index (x : sig) : Z := match x with L i => i | _ => -1 end.
+
 Definition flop_args (d q : sig) (e s r : option sig) (x : sig) : bexp :=
-  match x with
-  | L 0 => BVar d
-  | L 1 => opt_wire e
-  | L 2 => opt_wire s
-  | L 3 => opt_wire r
-  | L 4 => BVar q            (* the register; twire(Q) <<= register *)
-  | _ => BAbsent
-  end.
+  let i := pin_index x in
+  if i =? 0 then BVar d
+  else if i =? 1 then opt_wire e
+  else if i =? 2 then opt_wire s
+  else if i =? 3 then opt_wire r
+  else if i =? 4 then BVar q            (* the register; twire(Q) <<= register *)
+  else BAbsent.
+
+(* valuation of the five flop_next parameters *)
+Definition flop_env (d e s r q : bool) (x : sig) : bool :=
+  let i := pin_index x in
+  if i =? 0 then d else if i =? 1 then e else if i =? 2 then s
+  else if i =? 3 then r else if i =? 4 then q else false.
 
 Definition extract_flop (cell : string) (d q : sig) (e s r : option sig) : option (sig * drv) :=
   if existsb (String.eqb cell) dff_names then
